@@ -165,6 +165,23 @@ func boundaryTag(s string) string {
 	return tags
 }
 
+// checkBrokenZone: a valid date-time followed by a truncated or wrongly separated zone suffix must be an error, counted once,
+// with the fallback time kept - also when the same suffix has been seen before (rep > 0).
+func (e *engine) checkBrokenZone(s string, rep int) {
+	e.c.Eval(1)
+	got, errs, pan := e.run(s)
+	e.c.Event("broken_zone_strings", 1)
+	e.c.Nontrivial(fmt.Sprintf("broken-zone:%s:rep%d", s[19:], rep))
+	switch {
+	case pan != nil:
+		e.c.Violation("panic:broken-zone", fmt.Sprintf("parseTime panics on %q: %v", s, pan), map[string]any{"input": s})
+	case errs != 1:
+		e.c.Violation("broken-zone:not-counted", fmt.Sprintf("%q (a good date-time with a truncated / wrongly separated zone, presentation %d of that suffix) counted %d errors (want 1)", s, rep+1, errs), map[string]any{"input": s, "presentation": rep + 1})
+	case !got.Equal(e.fallback) || got.Nanosecond() != e.fallback.Nanosecond():
+		e.c.Violation("broken-zone:fallback-changed", fmt.Sprintf("%q (presentation %d of that suffix): the fallback time was replaced by %s", s, rep+1, got), map[string]any{"input": s})
+	}
+}
+
 // checkOther decides clauses 2 and 3 on a string the reference rejects.
 func (e *engine) checkOther(s string) {
 	e.c.Eval(1)
@@ -261,6 +278,20 @@ func main() {
 	r := c.Rand("valid", 0)
 	nSample := c.N(150000, 6000000)
 	mdays := []int{31, 28, 31, 30, 31, 30, 31, 31, 30, 31, 30, 31}
+	// Truncated and wrongly separated zone suffixes behind a perfectly good date-time (with and without fraction): "truncated,
+	// wrong separators" in the property's words. Each form is presented several times in a row, on different instants, to the
+	// same transform instance - whatever the transform remembers about a suffix must not turn the second one into a success.
+	for _, zone := range []string{"+", "-", "+0", "+03", "+03:", "+03:0", "+030", "-0800:", "+03.00", "+03-00", "+03 00", "+3:00", "+03:00:", "+03:000", "+0300 "} {
+		for rep := 0; rep < 4; rep++ {
+			for _, frac := range []string{"", ".5", ".123456789"} {
+				s := fmt.Sprintf("2022-0%d-1%dT0%d:30:4%d%s%s", 1+rep, rep, rep, rep, frac, zone)
+				if _, ok := refParse(s); ok {
+					continue
+				}
+				e.checkBrokenZone(s, rep)
+			}
+		}
+	}
 	for i := 0; i < nSample; i++ {
 		year := 1 + r.Intn(9999)
 		if r.Intn(4) == 0 {
